@@ -149,6 +149,34 @@ pub fn gen(rng: &mut Rng, thorough: bool, out: &mut Out) -> Vec<Value> {
             strings.insert(m);
         }
     }
+    // every grammar position against the whole ASCII range (and two non-ASCII characters): one valid exemplar per form, each
+    // character in turn replaced by / preceded by every other character — class boundaries (`,` between `+` and `-`, `0`/`O`/`I`/`l`
+    // of base 58, `/` and `:` next to the digits) are all in here
+    {
+        let exemplars = ["did:web:x", "a+b-c.d:rest", "NcYxiDXkpYi6ov5FcYDi1e", "DXoTtQJNtXtiwWaZAK3rB1:2:na.me:1.0", "DXoTtQJNtXtiwWaZAK3rB1:3:CL:98153:tag",
+            "DXoTtQJNtXtiwWaZAK3rB1:3:CL:DXoTtQJNtXtiwWaZAK3rB1:2:na.me:1.0:tag",
+            "DXoTtQJNtXtiwWaZAK3rB1:4:DXoTtQJNtXtiwWaZAK3rB1:3:CL:98153:tag:CL_ACCUM:rtag"];
+        let mut alphabet: Vec<char> = (0u8..128).map(char::from).collect();
+        alphabet.push('é');
+        alphabet.push('\u{2028}');
+        for (ei, e) in exemplars.iter().enumerate() {
+            let cs: Vec<char> = e.chars().collect();
+            // the long forms repeat their prefix: vary every position of the short ones, every third of the long ones in quick
+            let stride = if thorough || cs.len() < 40 { 1 } else { 3 };
+            for pos in (0..cs.len()).step_by(stride) {
+                for a in &alphabet {
+                    let mut r = cs.clone();
+                    r[pos] = *a;
+                    strings.insert(r.iter().collect());
+                    if ei < 3 || thorough {
+                        let mut r = cs.clone();
+                        r.insert(pos, *a);
+                        strings.insert(r.iter().collect());
+                    }
+                }
+            }
+        }
+    }
     let mut cases = vec![];
     for s in &strings {
         #[cfg(feature = "unit_hooks")]
